@@ -10,7 +10,7 @@ class CToken(Token):
         super().__init__(typ, val, loc)
         self.space = space
         self.first = first
-        # self.hideset = set()
+        self.painted = False  # Set when found inside its own expansion
 
     def __repr__(self):
         return (
@@ -27,7 +27,9 @@ class CToken(Token):
             space = self.space
         if first is None:
             first = self.first
-        return CToken(self.typ, self.val, space, first, self.loc)
+        token = CToken(self.typ, self.val, space, first, self.loc)
+        token.painted = self.painted
+        return token
 
 
 class TokenType(enum.Enum):
